@@ -407,6 +407,12 @@ impl rustc_driver::Callbacks for Cb {
     };
     let cx = Cx { tcx };
     let krate = tcx.crate_name(LOCAL_CRATE).to_string();
+    // When used as RUSTC_WRAPPER (dependencies included), PIE_FACTS_ONLY selects the crates to dump.
+    if let Ok(only) = std::env::var("PIE_FACTS_ONLY") {
+      if !only.split(',').any(|c| c == krate) {
+        return Compilation::Continue;
+      }
+    }
     let mut out = String::new();
     let _ = write!(out, "{{\"crate\":{}", esc(&krate));
     let _ = write!(out, ",\"crate_id\":{}", esc(&format!("{:x}", tcx.stable_crate_id(LOCAL_CRATE).as_u64())));
